@@ -690,6 +690,14 @@ pub fn c09_struct_pairs(sl: &gen::SLoc, r: &mut Rng) -> Vec<(&'static str, Vec<u
             let at = r.below(s2.id.variants.len() + 1);
             s2.id.variants.insert(at, d);
         }
+        if r.chance(1, 4) {
+            // heavy repetition: the list grows well beyond any "small list" fast path
+            for _ in 0..2 + r.below(9) {
+                let d = r.pick(&s2.id.variants).clone();
+                let at = r.below(s2.id.variants.len() + 1);
+                s2.id.variants.insert(at, d);
+            }
+        }
         pairs.push(("variant-order", a.clone(), tok_bytes(&s2.tokens())));
     }
     if let Some((attrs, kws)) = &sl.u {
@@ -701,6 +709,13 @@ pub fn c09_struct_pairs(sl: &gen::SLoc, r: &mut Rng) -> Vec<(&'static str, Vec<u
                 let d = r.pick(&u2.0).clone();
                 let at = r.below(u2.0.len() + 1);
                 u2.0.insert(at, d);
+            }
+            if r.chance(1, 4) {
+                for _ in 0..2 + r.below(9) {
+                    let d = r.pick(&u2.0).clone();
+                    let at = r.below(u2.0.len() + 1);
+                    u2.0.insert(at, d);
+                }
             }
             pairs.push(("attribute-order", a.clone(), tok_bytes(&s2.tokens())));
         }
@@ -723,6 +738,13 @@ pub fn c09_struct_pairs(sl: &gen::SLoc, r: &mut Rng) -> Vec<(&'static str, Vec<u
                 r.shuffle(&mut t2.variants);
                 let d = r.pick(&t2.variants).clone();
                 t2.variants.push(d);
+                if r.chance(1, 4) {
+                    for _ in 0..2 + r.below(9) {
+                        let d = r.pick(&t2.variants).clone();
+                        let at = r.below(t2.variants.len() + 1);
+                        t2.variants.insert(at, d);
+                    }
+                }
                 pairs.push(("tlang-variant-order", a.clone(), tok_bytes(&s2.tokens())));
             }
         }
